@@ -44,7 +44,10 @@ RULE_ADDED = (
               '59:59Z; zero-edged digests in the commitments. '
               ' '
               'Round 11: attestation-key message extended without re-signing; certificate with '
-              'a signature algorithm identifier unknown to the library. ')
+              'a signature algorithm identifier unknown to the library. '
+              ' '
+              'Round 12: a second, failing attestation-key + quote branch listed as a target be'
+              'fore the genuine quote. ')
 RULE = RULE + " " + RULE_ADDED.strip()
 ASSUMPTIONS = [
     "oracle: pv/oracle/certv2.py; X.509 parsing itself is shared (cryptography), signature "
@@ -70,7 +73,9 @@ CORRUPTIONS = ["flip-quote", "flip-quote-report-data", "flip-quote-signature", "
                "wrong-root-extra-targets", "flip-x509-extra-targets",
                "attacker-chain-with-own-root-embedded", "attacker-chain-with-own-root-embedded",
                "cert-by-key-of-another-algorithm", "cert-by-key-of-another-algorithm",
-               "att-message-extended", "cert-with-unknown-signature-algorithm"]
+               "att-message-extended", "cert-with-unknown-signature-algorithm",
+               "failing-branch-listed-before-the-quote",
+               "failing-branch-listed-before-the-quote"]
 
 
 # process time zones of the shards (None: as inherited, UTC in this sandbox): validity is a
@@ -267,6 +272,18 @@ def corrupt(rng, m, doc, kind):
         # bytes appended to the signed quote without re-signing
         q["message"] = q["message"] + "00"
         return d, root, "quote"
+    if kind == "failing-branch-listed-before-the-quote":
+        # a second attestation key + quote under other names, whose attestation-key element
+        # is signed by a stranger: listed as a target BEFORE the genuine quote.  It fails
+        # (above its leaf); the genuine quote's own chain is untouched and verifies
+        import copy as _copy
+        a0, q0 = _copy.deepcopy(a), _copy.deepcopy(q)
+        a0["name"], q0["name"], q0["signed_by"] = "attestation0", "quote0", "attestation0"
+        a0["signature"] = g.sign_der(g.new_key(rng), bytes.fromhex(a0["message"])).hex()
+        d["elements"] = d["elements"] + [a0, q0]
+        rng.shuffle(d["elements"])
+        d["targets"] = ["quote0", "quote"]
+        return d, root, None
     if kind == "cert-with-unknown-signature-algorithm":
         i = rng.randrange(len(certs))
         body = g.unknown_signature_oid(certs[i]["message"])
